@@ -65,7 +65,8 @@ Code(s, it) == s * 10 + it                    \* exception identity
 Max2(a, b) == IF a > b THEN a ELSE b
 Min2(a, b) == IF a < b THEN a ELSE b
 Single == cfg.n = 0                           \* one-stage pipeline (Pipe<kSingleStage>)
-NGen == IF Single THEN Min2(cfg.p, Lim(0)) ELSE Max2(1, Min2(cfg.p, Lim(0)))
+\* (before the fix a one-stage pipeline scheduled min(p, limit) instances: none on a zero-thread pool)
+NGen == IF Single /\ ~cfg.fix THEN Min2(cfg.p, Lim(0)) ELSE Max2(1, Min2(cfg.p, Lim(0)))
 
 Frame(k, pc, g, it) == [k |-> k, pc |-> pc, g |-> g, it |-> it, d |-> 0, w |-> FALSE, x |-> 0, h |-> FALSE, a |-> FALSE]
 TaskFrame(g, it, w) ==
@@ -132,8 +133,15 @@ Finish(t, f) ==
               /\ stk' = [stk EXCEPT ![t] = s1]
               /\ UNCHANGED depth
   ELSE /\ depth' = [depth EXCEPT ![t] = @ - 1]
-       /\ stk' = [stk EXCEPT ![t] = IF f.x # 0 THEN Unwind(s1, f.x) ELSE s1]
-       /\ UNCHANGED <<exc, canceled, otc>>
+       /\ IF f.x = 0 THEN stk' = [stk EXCEPT ![t] = s1] /\ UNCHANGED <<exc, canceled, otc>>
+          ELSE LET s2 == Unwind(s1, f.x)
+                   g == s2[Len(s2)] IN
+               IF g.k = "gen" /\ cfg.fix /\ ~Single
+                 \* fixed generator: the lambda exits through packageTask's catch (trySetCurrentException,
+                 \* otc-1); the completion signal is given afterwards, when the closure is destroyed
+                 THEN /\ TrySet(f.x) /\ otc' = otc - 1
+                      /\ stk' = [stk EXCEPT ![t] = SetTop(s2, [g EXCEPT !.x = 0, !.w = FALSE])]
+                 ELSE /\ stk' = [stk EXCEPT ![t] = s2] /\ UNCHANGED <<exc, canceled, otc>>
 
 \* after the completion callback: pipeNext_.execute(result) unless sink / filtered; then the guards
 PassesOn(g, it) == g < cfg.n /\ <<g, it>> \notin cfg.filt
